@@ -1,6 +1,7 @@
 import BornoModel.Eval
 import BornoModel.Parser
 import BornoModel.Props.C10
+import BornoModel.Lemmas.LexInsert
 /-! # C18 — meaning is invariant under layout, digit script, synonyms, renaming, parentheses -/
 namespace Borno.Props.C18
 open Borno Lexer
@@ -87,5 +88,84 @@ theorem dead_branch_invisible (P : Platform) (f : Nat) (c : Expr) (s : Stmt) (en
     (h0 : σ.hadError = false) (hc : evalE P f c env repl σ = .ok (cv, .none) σ1) (ht : truthy cv = false) :
     evalS P (f + 1) (.ifS c s none) env repl σ = .ok (.nil, .none) σ1 := by
   rw [evalS]; simp only [guardErr, ER.seq, Res.bind, h0, hc]; simp [guardErr, ER.seq, Res.bind, ht, nilOk]
+
+/-! ## (a) for whole texts: a blank or a line break after any token -/
+
+/-- **inserting a blank, a tab or a carriage return immediately after any token of a text leaves the
+    scanner's whole output unchanged** — the same tokens with the same lines, the same diagnostics.
+    (`AfterToken lm A B 1`: the scanner consumes `A` in whole steps and the last one yields a token;
+    `lm b = false`: a blank is not a letter.) -/
+theorem blank_insertion_after_any_token (lm : Char → Bool) (hlm : lm '\n' = false) (b : Char)
+    (hb : b = ' ' ∨ b = '\t' ∨ b = '\r') (hlmb : lm b = false) (A B : List Char) (toks : List Token) (ds : List Diag)
+    (hat : AfterToken lm A B 1) (h : Lexer.scan lm (A ++ B) = some (toks, ds)) :
+    Lexer.scan lm (A ++ b :: B) = some (toks, ds) := by
+  unfold Lexer.scan at h ⊢
+  have := blank_after_token lm hlm b hb hlmb hat _ toks ds h
+  simpa [List.length_append, Nat.add_assoc, Nat.add_comm 1] using this
+
+/-- **inserting a line break immediately after any token changes no token and no diagnostic, only
+    line numbers** -/
+theorem newline_insertion_after_any_token (lm : Char → Bool) (hlm : lm '\n' = false) (A B : List Char)
+    (toks : List Token) (ds : List Diag) (hat : AfterToken lm A B 1) (h : Lexer.scan lm (A ++ B) = some (toks, ds)) :
+    ∃ toks' ds', Lexer.scan lm (A ++ '\n' :: B) = some (toks', ds') ∧
+      toks'.map tokShape = toks.map tokShape ∧ ds'.map diagShape = ds.map diagShape := by
+  unfold Lexer.scan at h ⊢
+  obtain ⟨t', d', h1, h2, h3⟩ := newline_after_token lm hlm hat _ toks ds h
+  exact ⟨t', d', by simpa [List.length_append, Nat.add_assoc, Nat.add_comm 1] using h1, h2, h3⟩
+
+/-- the general form: **one piece of trivia — a blank, a line break, a complete block comment —
+    inserted after any closed scanning step** (a token, a blank, a line break, a complete block comment;
+    for a comment: not after a `/` token, which it would turn into another token or comment)
+    changes no token and no diagnostic, only the line numbers of what follows.  Since the inserted
+    piece is itself a closed step, insertions can be repeated: any sequence of blanks, line
+    breaks and comments between two tokens. -/
+theorem trivia_piece_insertion (lm : Char → Bool) (hlm : lm '\n' = false) (b : Char) (T' : List Char) (hb : isGap' b) (hlmb : lm b = false)
+    (A B : List Char) (toks : List Token) (ds : List Diag)
+    (hT : ∀ l, scanToken lm ((b :: T') ++ B) l = some ⟨none, none, b :: T', B, l + countNl (b :: T')⟩)
+    (hat : AfterStep lm (fun st => Closed b st ∧ (st.rest ≠ [] ∨ st.tok.isSome = true)) A B 1)
+    (h : Lexer.scan lm (A ++ B) = some (toks, ds)) :
+    ∃ toks' ds', Lexer.scan lm (A ++ (b :: T') ++ B) = some (toks', ds') ∧
+      toks'.map tokShape = toks.map tokShape ∧ ds'.map diagShape = ds.map diagShape := by
+  unfold Lexer.scan at h ⊢
+  -- the fuel `length + 1` of the longer text is at least the `f + 1` the lemma needs: scanning is monotone in fuel
+  obtain ⟨t', d', h1, h2, h3⟩ := piece_after_step lm hlm b T' hb hlmb hT hat _ toks ds h
+  obtain ⟨t2, d2, hfull⟩ := C09.scan_total lm hlm (A ++ (b :: T') ++ B)
+  unfold Lexer.scan at hfull
+  -- both runs succeed; a successful scan does not depend on the fuel
+  obtain ⟨steps1, hs1, ht1, hd1⟩ := C09.scanLoop_scans lm hlm _ _ _ _ _ h1
+  obtain ⟨steps2, hs2, ht2, hd2⟩ := C09.scanLoop_scans lm hlm _ _ _ _ _ hfull
+  have hsame : steps1 = steps2 := Scans_unique hs1 hs2
+  subst hsame
+  exact ⟨t', d', by rw [hfull, ht2, hd2, ht1, hd1], h2, h3⟩
+
+/-- in particular a complete block comment after any token other than `/` -/
+theorem block_comment_insertion_after_token (lm : Char → Bool) (hlm : lm '\n' = false) (hlms : lm '/' = false)
+    (r0 u rest0 : List Char) (hbc : blockComment r0 = (u, some rest0))
+    (A B : List Char) (toks : List Token) (ds : List Diag)
+    (hat : AfterStep lm (fun st => st.tok.isSome = true ∧ st.used ≠ ['/']) A B 1)
+    (h : Lexer.scan lm (A ++ B) = some (toks, ds)) :
+    ∃ toks' ds', Lexer.scan lm (A ++ ('/' :: '*' :: u) ++ B) = some (toks', ds') ∧
+      toks'.map tokShape = toks.map tokShape ∧ ds'.map diagShape = ds.map diagShape := by
+  have hat' : AfterStep lm (fun st => Closed '/' st ∧ (st.rest ≠ [] ∨ st.tok.isSome = true)) A B 1 :=
+    hat.mono (fun st h3 => ⟨Or.inl ⟨h3.1, fun _ => h3.2⟩, Or.inr h3.1⟩)
+  exact trivia_piece_insertion lm hlm '/' ('*' :: u) (by simp [isGap']) hlms A B toks ds
+    (fun l => block_comment_step lm r0 u rest0 hbc B l) hat' h
+
+/-- the one-step fact behind both: a scanning step looks at the unread text only through `Compat` -/
+theorem step_ignores_unread_text (lm : Char → Bool) (c : Char) (r : List Char) (line : Nat) (st : Step)
+    (h : scanToken lm (c :: r) line = some st) (hlive : st.rest ≠ [] ∨ st.tok.isSome = true)
+    (Y : List Char) (hY : Compat lm c st.used Y) :
+    scanToken lm (st.used ++ Y) line = some { st with rest := Y } := scanToken_swap lm c r line st h hlive Y hY
+
+/-- non-vacuity: in `ab+1` the positions after `ab` and after `+` are each "after a token" -/
+example :
+    AfterToken (fun c => c.isAlpha) "ab".toList "+1".toList 1 ∧
+    AfterToken (fun c => c.isAlpha) "ab+".toList "1".toList 1 := by
+  have h1 : scanToken (fun c => c.isAlpha) "ab+1".toList 1 =
+      some ⟨some ⟨.IDENTIFIER, "ab".toList, .none, 1⟩, none, "ab".toList, "+1".toList, 1⟩ := by rfl
+  have h2 : scanToken (fun c => c.isAlpha) "+1".toList 1 =
+      some ⟨some ⟨.PLUS, "+".toList, .none, 1⟩, none, "+".toList, "1".toList, 1⟩ := by rfl
+  refine ⟨AfterToken.here h1 rfl rfl, ?_⟩
+  exact AfterToken.later (A' := "+".toList) h1 rfl (by simp) (AfterToken.here h2 rfl rfl)
 
 end Borno.Props.C18
